@@ -337,6 +337,9 @@ def _variants():
         V("memo-value-depends-on-global", [insert_stmt(PE, None, "class Perm(Tuple[int], Patt): ...", "_SEEN = []", "before"),
                                           replace_expr(PE, "Perm._pattern_details", "len(self) - val", "len(self) - val + len(_SEEN)")], "fire", "C01-M2"),
         V("memo-callee-impure", insert_stmt(PE, "Perm.left_floor_and_ceiling", "smallest, biggest = (-1, -1)", "random.random()", "after"), "fire", "C01-M2"),
+        V("in-operator-strict-length-shortcut", replace_expr(PE, "Perm.__contains__", "self._contains(patt)", "len(patt) < len(self) and self._contains(patt)"), "fire", "C01-L1"),
+        V("in-operator-length-shortcut", replace_expr(PE, "Perm.__contains__", "self._contains(patt)", "len(patt) <= len(self) and self._contains(patt)"), "nofire"),
+        V("in-operator-early-no", insert_stmt(PE, "Perm.__contains__", "raise TypeError('patt must be a Patt')", "if isinstance(patt, Patt) and len(self) <= len(patt):\n    return False", "before"), "nofire"),
         V("memo-table-mutated", insert_stmt(PE, "Perm.occurrences_in", "occurrence_indices = [0] * n", "pattern_details.reverse()", "before"), "fire", "C01-M3"),
         V("memo-table-leaked", insert_stmt(PE, "Perm.get_perm", "return self", "return self._pattern_details()", "before"), "fire", "C01-M3"),
         V("new-object-state", insert_stmt(PE, "Perm.inverse", "result = [0] * len(self)", "self._inverse_calls = getattr(self, '_inverse_calls', 0) + 1", "before"), "undecided", note="unreviewed per-object state: neither accused nor passed"),
@@ -746,3 +749,59 @@ def run(ctx: Ctx) -> None:  # noqa: F811
 
 
 FLOORS["C01-T1"] = 1
+
+
+# ---------------------------------------------------------------------------- L1: a length shortcut in front of a containment test is non-strict
+#
+# A pattern as long as the permutation can occur in it (the permutation contains itself; the empty pattern occurs in the empty
+# permutation).  A cheap length test put in front of the search is therefore `len(patt) <= len(self)` as a necessary condition
+# and `len(self) < len(patt)` as a reason to answer "no" - never the other strictness.  (Canonical comparisons use < and <=.)
+
+_CONTAINMENT_ENTRY = ("__contains__", "_contains", "contains", "avoids", "avoids_set", "contained_in", "avoided_by", "count_occurrences_of", "occurrences_of")
+
+
+def rule_l1(ctx: Ctx) -> None:
+    n = 0
+    for name in _CONTAINMENT_ENTRY:
+        fi = ctx.repo.method("Perm", name)
+        if fi is None or not fi.params:
+            continue
+        me = fi.params[0]
+        n += 1
+        bad = None
+        for cmp_ in [c for c in walk_no_nested(fi.node) if isinstance(c, ast.Compare) and len(c.ops) == 1 and isinstance(c.ops[0], (ast.Lt, ast.LtE))]:
+            l, r = cmp_.left, cmp_.comparators[0]
+            if not all(isinstance(x, ast.Call) and call_name(x) == ("len",) and len(x.args) == 1 and isinstance(x.args[0], ast.Name) for x in (l, r)):
+                continue
+            ln, rn = l.args[0].id, r.args[0].id
+            if me not in (ln, rn) or ln == rn:
+                continue
+            strict = isinstance(cmp_.ops[0], ast.Lt)
+            parent = next((p for p in ast.walk(fi.node) for c in ast.iter_child_nodes(p) if c is cmp_), None)
+            calls_search = lambda e: any(isinstance(x, ast.Call) and call_name(x) and call_name(x)[-1] in ("_contains", "contains", "occurrences_in", "occurrences_of", "count_occurrences_in") for x in ast.walk(e))  # noqa: E731
+            if isinstance(parent, ast.BoolOp) and isinstance(parent.op, ast.And) and any(calls_search(v) for v in parent.values if v is not cmp_):
+                # necessary condition for containment: the other operand (the pattern) is at most as long as self
+                if rn == me and strict:
+                    bad = (cmp_, f"`{unparse(cmp_)}` is required before the search: a pattern exactly as long as the permutation (the permutation itself, the empty pattern in the empty permutation) is never reported as contained")
+                elif ln == me:
+                    raise AnalysisError(f"{fi.where}: length test `{unparse(cmp_)}` in front of the search is not of a recognised form")
+            elif isinstance(parent, ast.If) and parent.test is cmp_ and parent.body and isinstance(parent.body[0], ast.Return) and isinstance(parent.body[0].value, ast.Constant) and parent.body[0].value.value is False:
+                if ln == me and not strict:
+                    bad = (cmp_, f"`if {unparse(cmp_)}: return False`: a pattern exactly as long as the permutation is answered 'not contained' without a search")
+        if bad:
+            ctx.violation("C01-L1", fi, bad[0], bad[1], robust=True)
+        else:
+            ctx.ok("C01-L1", fi.where, "no strict length shortcut in front of the containment search", fi.node, fi)
+    if n == 0:
+        raise AnalysisError("C01-L1: no containment entry point found on Perm")
+
+
+_OLD_RUN_L1 = run
+
+
+def run(ctx: Ctx) -> None:  # noqa: F811
+    _OLD_RUN_L1(ctx)
+    ctx.run(rule_l1, ctx)
+
+
+FLOORS["C01-L1"] = 4
